@@ -62,9 +62,11 @@ func c20derived(ctx *Ctx) {
 				return s
 			}
 			o1 := obs()
-			try(func() { c.derive(b) })
+			if p, why := try(func() { c.derive(b) }); p {
+				ctx.Fail(Failure{Site: "no-panic", Sig: "panic:derive:" + c.name, What: "deriving a value from an existing one panicked: " + c.name, Input: before, GoLit: b.GoString(), Outcome: why})
+			}
 			after, o2 := cty.VerifDump(b), obs()
-			ctx.Eval("derived "+c.name+fmt.Sprint(rep), true)
+			ctx.Eval("derived "+c.name+fmt.Sprint(rep), false)
 			if before != after || o1 != o2 {
 				ctx.Fail(Failure{Site: "fingerprints-stable", Sig: "derived-value-changes-its-base", What: "deriving a new value changed the value it was derived from: " + c.name,
 					Input: before, GoLit: b.GoString(), Outcome: after + " observations " + o1 + " -> " + o2})
